@@ -195,14 +195,28 @@ exit 1
 	nenv := 0
 	incText := map[string]string{} // file holding the [include] directive -> text of the included file
 	wants := map[string]string{} // key -> record `git config -z -l` must print last for it
+	wantRank := map[string]int{}
 	for _, g := range c.GitCfg {
 		k := g.K
 		k.Sub = t.s.apply(k.Sub, 0)
 		v := t.s.apply(g.Val, 0)
 		valueless := g.OKind == "valueless"
-		wants[k.String()] = k.String() + "\n" + v
-		if valueless {
-			wants[k.String()] = k.String()
+		// the record Git prints LAST for a key is the one of the strongest place that sets it (global file, the
+		// file it includes at its end, local file, the file that one includes at its end, GIT_CONFIG_KEY_n,
+		// -c), and within one place the later one; not the one the generator happened to emit last
+		rank := map[string]int{"global": 0, "include": 1, "local": 2, "env": 4, "cmdline": 5}[g.Scope]
+		if g.Scope == "include" && g.IncFrom != "global" {
+			rank = 3
+		}
+		if g.Scope != "global" && g.Scope != "include" && g.Scope != "env" && g.Scope != "cmdline" {
+			rank = 2
+		}
+		if rank >= wantRank[k.String()] {
+			wantRank[k.String()] = rank
+			wants[k.String()] = k.String() + "\n" + v
+			if valueless {
+				wants[k.String()] = k.String()
+			}
 		}
 		blk := cfgBlock(k, v)
 		if valueless {
